@@ -271,9 +271,14 @@ def build_case(r, kind, tier):
             faults = [{"kind": "read_err", "path": "left.dkvp", "at": r.below(max(1, len(left))), "errno": "EIO"}]
         else:
             faults = [{"kind": "op_err", "op": "open", "path": "left.dkvp", "nth": 0, "errno": "EACCES"}]
-        verbs = [["join", "-j", "a", r.choice(["--ul", "--np", "-u"]), "--prepipe" if False else "-i", "dkvp", "-f", "left.dkvp"]] + verbs[:1]
-        if r.chance(0.3):
+        verbs = [["join", "-j", "a", r.choice(["--ul", "--np", "-u", "--ur"]), "--prepipe" if False else "-i", "dkvp", "-f", "left.dkvp"]] + verbs[:1]
+        if r.chance(0.4):
             verbs[0].insert(1, "-s")
+        # "a run that exits 0 has consumed all of its input": the left file is input, wherever the right stream ends
+        case["must_fail_unfired"] = True
+        if r.chance(0.3):
+            for k in range(nfiles):
+                files[names[k]] = fmt_text(fmt, [] if r.chance(0.5) else rect_records(r, 1))
     elif kind == "first_record_early_exit":
         verbs = verbs + [["head", "-n", "1"]]
         size = len(files[names[0]].encode())
@@ -376,9 +381,11 @@ def build_case(r, kind, tier):
     elif kind == "prepipe_fail":
         # the command producing the input fails (cannot be started, rejects the data, or ends with a non-zero status
         # after writing everything): the input could not be read properly, whatever did arrive
-        which = r.choice(["false", "nosuch", "gunzip_plain", "exit3_after_all", "gunzip_truncated"])
+        which = r.choice(["false", "nosuch", "gunzip_plain", "exit3_after_all", "gunzip_truncated", "killed", "killed_term"])
         pre = {"false": ["--prepipe", "false"], "nosuch": ["--prepipe", "no-such-command-xyz"], "gunzip_plain": ["--prepipe", "gunzip"],
-               "exit3_after_all": ["--prepipex", "sh -c 'cat \"$0\"; exit 3'"], "gunzip_truncated": ["--prepipe", "gunzip"]}[which]
+               "exit3_after_all": ["--prepipex", "sh -c 'cat \"$0\"; exit 3'"], "gunzip_truncated": ["--prepipe", "gunzip"],
+               # the command dies from a signal after writing part of its output
+               "killed": ["--prepipex", "sh -c 'head -c 9 \"$0\"; kill -9 $$'"], "killed_term": ["--prepipex", "sh -c 'cat \"$0\"; kill -15 $$'"]}[which]
         if which == "gunzip_truncated":
             raw = files[names[j]].encode() * 40
             z = gzip.compress(raw)
@@ -448,7 +455,7 @@ def evaluate(case, chk):
         for c in cfgs:
             c.pop("flags", None)
         case["configs"] = cfgs
-    by_construction = not faults
+    by_construction = not faults or bool(case.get("must_fail_unfired"))
     vd.notes["kind:" + str(case.get("fault_kind"))] = 1
     ref = None
     if case["expect"] == "ok":
